@@ -189,6 +189,13 @@ def apply_op(o, x, aux, aux2, mask):
         return F.gelu(x)
     if op == "contiguous":
         return x.contiguous()
+    if op == "roundtrip":
+        if isinstance(x, QTensor):
+            d = {}
+            x.save_to_state_dict(d, "w.", False)
+            assert all(isinstance(v, str) or type(v) is torch.Tensor for v in d.values()), "state dict entry that is neither a plain tensor nor a string"
+            return type(x).load_from_state_dict(d, "w.") if not isinstance(x, QBitsTensor) else QBitsTensor.load_from_state_dict(d, "w.")
+        return x.clone()
     if op == "softmax":
         return torch.softmax(x, o["dim"] - 1)
     if op == "where":
